@@ -379,3 +379,96 @@ Example project_example :
   LG [(1%N, [Some 1%N; None]); (2%N, [Some 2%N; None])] [(1%N, 2%N, Some [4%Z])].
 Proof. reflexivity. Qed.
 End Example_trace.
+
+(* ------------------------------------------------------------------ 2d. the tested earlier position is a cluster's first member *)
+Section TrHeads.
+Variable iso : item -> item -> bool.
+Variable mode : attr_mode.
+
+Lemma gc_inner_tr_cluster i xi c rest : forall cl vis rc tr,
+  exists more, fst (fst (fst (gc_inner_tr iso mode i xi c rest (cl, vis, rc) tr))) = cl ++ more.
+Proof.
+  induction rest as [|[j xj] r IH]; intros cl vis rc tr; simpl.
+  - exists []. now rewrite app_nil_r.
+  - destruct (zlist_eqb (gc_key mode xi) (gc_key mode xj) && negb (memb j vis)); [destruct (iso xi xj)|]; try apply IH.
+    destruct (IH (cl ++ [j]) (j :: vis) (rc ++ [(j, c)]) (tr ++ [(i, j)])) as (more & E).
+    exists (j :: more). rewrite E, <- app_assoc. reflexivity.
+Qed.
+
+Lemma gc_outer_tr_heads todo : forall visited clusters r2c tr,
+  exists cls_added tr_added,
+    fst (fst (gc_outer_tr iso mode todo visited clusters r2c tr)) = clusters ++ cls_added /\
+    snd (gc_outer_tr iso mode todo visited clusters r2c tr) = tr ++ tr_added /\
+    forall p, In p tr_added -> exists cl, In (fst p :: cl) cls_added.
+Proof.
+  induction todo as [|[i xi] rest IH]; intros visited clusters r2c tr; simpl.
+  - exists [], []. rewrite !app_nil_r. split; [reflexivity|split; [reflexivity|intros p []]].
+  - destruct (memb i visited); [apply IH|].
+    destruct (gc_inner_tr_app iso mode i xi (length clusters) rest ([i], i :: visited, r2c ++ [(i, length clusters)]) tr)
+      as (a1 & E1 & P1 & _).
+    destruct (gc_inner_tr_cluster i xi (length clusters) rest [i] (i :: visited) (r2c ++ [(i, length clusters)]) tr) as (more & Ec).
+    destruct (gc_inner_tr iso mode i xi (length clusters) rest ([i], i :: visited, r2c ++ [(i, length clusters)]) tr)
+      as [[[cl vis] rc] tr'] eqn:Ei. simpl in E1, Ec. subst tr' cl.
+    destruct (IH vis (clusters ++ [i :: more]) rc (tr ++ a1)) as (ca & ta & Ecl & Etr & Hh).
+    exists ((i :: more) :: ca), (a1 ++ ta). split; [rewrite Ecl, <- app_assoc; reflexivity|].
+    split; [rewrite Etr, <- app_assoc; reflexivity|].
+    intros p Hp. apply in_app_or in Hp. destruct Hp as [Hp|Hp].
+    + destruct (P1 p Hp) as (F & _). exists more. left. simpl. now rewrite F.
+    + destruct (Hh p Hp) as (cl & Hcl). exists cl. now right.
+Qed.
+
+(** every test of iterative_cluster has the FIRST member of some returned cluster as its first argument: an item is only ever
+    compared with the representative of a class (the transitivity shortcut of the code, made visible) *)
+Theorem gc_trace_heads data i j :
+  In (i, j) (snd (gc_iterative_tr iso mode data)) ->
+  exists cl, In (i :: cl) (fst (fst (gc_iterative_tr iso mode data))).
+Proof.
+  unfold gc_iterative_tr. intros H.
+  destruct (gc_outer_tr_heads (enum_from 0 data) [] [] [] []) as (ca & ta & Ecl & Etr & Hh).
+  rewrite Etr in H. simpl in H. rewrite Ecl. simpl. exact (Hh _ H).
+Qed.
+
+End TrHeads.
+
+Theorem gc_trace_full (iso : item -> item -> bool) (mode : attr_mode) (data : list item) :
+  let tr := snd (gc_iterative_tr iso mode data) in
+  NoDup tr /\
+  (forall i j, In (i, j) tr ->
+     i < j < length data /\
+     (exists xi xj, nth_error data i = Some xi /\ nth_error data j = Some xj /\ gc_key mode xi = gc_key mode xj) /\
+     (exists cl, In (i :: cl) (fst (fst (gc_iterative_tr iso mode data))))) /\
+  2 * length tr <= length data * (length data - 1).
+Proof.
+  intros tr. destruct (gc_trace iso mode data) as (A & B & C). split; [exact A|split; [|exact C]].
+  intros i j H. destruct (B i j H) as (B1 & B2). split; [exact B1|split; [exact B2|exact (gc_trace_heads iso mode data i j H)]].
+Qed.
+
+(* ------------------------------------------------------------------ 5. graph_isomorphism: option handling *)
+Lemma graph_iso2_diag b defs g1 g2 : graph_iso2 b b defs g1 g2 = graph_iso b defs g1 g2.
+Proof. reflexivity. Qed.
+
+(** both matchers given: the caller's configuration decides, use_defaults is irrelevant; no matcher and use_defaults: the
+    function's defaults; no matcher, no defaults: topology only *)
+Theorem iso_call_cases c cdef g1 g2 :
+  (forall ud, iso_call c cdef true true ud g1 g2 = graph_iso true (cc_defs c) (project13 c g1) (project13 c g2)) /\
+  iso_call c cdef false false true g1 g2 = graph_iso true (cc_defs cdef) (project13 cdef g1) (project13 cdef g2) /\
+  iso_call c cdef false false false g1 g2 =
+    graph_iso false [] (project13 {| cc_names := []; cc_defs := []; cc_edge := 0%N |} g1)
+                       (project13 {| cc_names := []; cc_defs := []; cc_edge := 0%N |} g2) /\
+  iso_call c cdef true false true g1 g2 =
+    graph_iso true (cc_defs c) (project13 {| cc_names := cc_names c; cc_defs := cc_defs c; cc_edge := cc_edge cdef |} g1)
+                               (project13 {| cc_names := cc_names c; cc_defs := cc_defs c; cc_edge := cc_edge cdef |} g2).
+Proof.
+  split; [intros ud; destruct c; reflexivity|]. split; [destruct cdef; reflexivity|]. split; reflexivity.
+Qed.
+
+Module Example_iso_call.
+(** C(charge +1) against C(no charge): different for the caller's [element; charge] matcher, equal without node matcher *)
+Definition cE : ccfg := {| cc_names := [0; 1]%N; cc_defs := [0; 9]%N; cc_edge := 0%N |}.
+Definition gP : rgraph13 := LG [(1%N, [(0%N, 1%N); (1%N, 5%N)])] [].
+Definition gQ : rgraph13 := LG [(2%N, [(0%N, 1%N)])] [].
+Example iso_call_example :
+  iso_call cE cE true true false gP gQ = false /\ iso_call cE cE false true false gP gQ = true /\
+  iso_call cE cE false false true gP gQ = false.
+Proof. repeat split; vm_compute; reflexivity. Qed.
+End Example_iso_call.
